@@ -7,9 +7,10 @@ from engine import coq_bool, coq_list
 IMPORTS = ["Lib.Base", "Lib.PyStr", "Model.Session", "Model.SessionCheck"]
 
 
-def one_history(ctx, rng, plan, oidc, roi, observers, label, fixed_ops=None, rules="explicit"):
-    rs = sess.RealSession(oidc=oidc, revoke_refresh_on_issue=roi, rules=rules)
+def one_history(ctx, rng, plan, oidc, roi, observers, label, fixed_ops=None, rules="explicit", empty3=False):
+    rs = sess.RealSession(oidc=oidc, revoke_refresh_on_issue=roi, rules=rules, empty3=empty3)
     ctx.count("rules:" + rules)
+    ctx.count("client_12-allowed-scopes:" + ("empty" if empty3 else "absent"))
     try:
         if fixed_ops is not None:
             pairs, rec = [], []
@@ -29,8 +30,8 @@ def one_history(ctx, rng, plan, oidc, roi, observers, label, fixed_ops=None, rul
             fin = getattr(ob, "finish", None)
             if fin:
                 fin(rs, rec)
-        term = "(%s, %s, %s, %s)" % (coq_bool(oidc), coq_bool(roi), coq_list(pairs), sess.coq_state(rs))
-        record = {"label": label, "oidc": oidc, "revoke_refresh_on_issue": roi, "usage_rules": rules, "ops": rec}
+        term = "(%s, %s, %s, %s, %s)" % (coq_bool(oidc), coq_bool(roi), coq_bool(empty3), coq_list(pairs), sess.coq_state(rs))
+        record = {"label": label, "oidc": oidc, "revoke_refresh_on_issue": roi, "usage_rules": rules, "client_12_allowed_empty": empty3, "ops": rec}
         for op, out in rec:
             ctx.count("op:" + op[0])
             ctx.count("out:" + out[0] + (":" + str(out[1]) if out[0] in ("err", "exc") else ""))
@@ -52,6 +53,7 @@ def run_histories(ctx, n_random, length, observers_factory, structured=(), seed_
         oidc = (i % 3 != 2)
         roi = (i % 5 == 4)
         plan = sess.gen_history(rng, rng.randint(*length))
-        cases.append(one_history(ctx, rng, plan, oidc, roi, observers_factory(), "%s-%d" % (seed_label, i), rules=RULES[(i // 3) % 3]))
+        cases.append(one_history(ctx, rng, plan, oidc, roi, observers_factory(), "%s-%d" % (seed_label, i), rules=RULES[(i // 3) % 3],
+                                 empty3=(i % 4 == 1)))
     ctx.coq_check_cases(IMPORTS, "hist", "chk_hist", cases, shard=12, label="hist", diag="diag_hist")
     return cases
